@@ -108,6 +108,7 @@ class ipv4(packet_base):
         assert isinstance(raw, bytes)
         self.next = None # In case of unfinished parsing
         self.raw = raw
+        self.trailer = b''
         dlen = len(raw)
         if dlen < ipv4.MIN_LEN:
             self.msg('warning IP packet data too short to parse header: data len %u' % (dlen,))
